@@ -86,12 +86,15 @@ def build(g, chart, gvar):
         if kind == 'action':
             extra = "\nsend('b', k=v)" if ident == 0 else "\nnotify('note', k=v)"
             return "A(%d)\nv = v + 1" % ident + extra
-        return c08.hook(kind, ident).replace('\nL.append(1)', '')
+        base = c08.hook(kind, ident).replace('\nL.append(1)', '')
+        if kind == 'exit':     # what active() says while states are being exited ends up in the context
+            base += "\nseen = seen + [tuple(active(n) for n in NAMES)]"
+        return base
     sc, trs, cm = cg.build(chart, 'id', code)
     for i in range(cm.n):
         st = sc.state_for(cm.names[i])
         st.preconditions.append("C('s', %d, 'pre')" % i)
-        st.postconditions.append("C('s', %d, 'post') and __old__.v <= v" % i)
+        st.postconditions.append("C('s', %d, 'post') and __old__.v <= v and (active(NAMES[0]) or True)" % i)
         st.invariants.append("C('s', %d, 'inv') and (idle(0) or True)" % i)
     for t, tr in enumerate(trs):
         tr.preconditions.append("C('t', %d, 'pre')" % t)
@@ -157,7 +160,7 @@ def gen(g, chart, level, canary):
     metas = {}
     for tag, ign in (('chk', False), ('ign', True)):
         inst = Inst(g, chart, 'id', sc=(sc, trs, cm), tag=tag, interp_kwargs={'ignore_contract': ign},
-                    extra_context={'C': mkC(tag), 'v': v0, 'DI': DI, 'DA': DA})
+                    extra_context={'C': mkC(tag), 'v': v0, 'DI': DI, 'DA': DA, 'seen': [], 'NAMES': list(cm.names)})
         metas[tag] = []
         inst.it.attach(lambda e, tag=tag: metas[tag].append(meta_key(e)))
         runs[tag] = inst
